@@ -245,8 +245,9 @@ def run_case(dom, hist, piece, l, k, rname, pts, raw, orient, argtype, cm, expec
             out.append(('bdr-target', 'tag', 'returned-cell', {'returned': leaf5(ret), 'expected': target}))
         got = leafset(m)
         if got != expected.leaves:
-            out.append(('bdr-least', 'tag', 'leafset', {'only_impl': sorted(got - expected.leaves)[:4],
-                                                        'only_ref': sorted(expected.leaves - got)[:4]}))
+            # Observation only: the property does not demand that boundary targeting produces the LEAST balanced
+            # refinement (the real code does); an over-refining but correct implementation must not be flagged.
+            cnt['result_differs_from_least_balanced_refinement'] = 1
         fp = check_signature(m)
         if first_fp is None or fp != first_fp:
             cnt['full_state_checks'] = 1
